@@ -514,7 +514,19 @@ class SimKernel(object):
         for c in self.children.values():
             if c.state != 'reaped':
                 kern.setdefault(c.name, []).append((c.pid, c.state))
-        return {'procs': procs, 'kernel': kern, 'mood': self.options.mood,
+        # what the API reports (getAllProcessInfo through the real rpcinterface); None while the daemon refuses calls
+        reported = None
+        try:
+            from supervisor.rpcinterface import SupervisorNamespaceRPCInterface
+            from supervisor.xmlrpc import RPCError
+            try:
+                infos = SupervisorNamespaceRPCInterface(self.supervisord).getAllProcessInfo()
+                reported = {'%s:%s' % (i['group'], i['name']): (i['state'], i['pid']) for i in infos}
+            except RPCError:
+                reported = None
+        except Exception as ex:      # an exception here is an observation, not an infrastructure error
+            reported = {'__error__': (repr(ex), 0)}
+        return {'procs': procs, 'kernel': kern, 'mood': self.options.mood, 'reported': reported,
                 'pidhistory': sorted(self.options.pidhistory.keys())}
 
     def on_poll(self, rset, wset):
